@@ -125,39 +125,60 @@ func Walk(root []byte, b []byte) (out string) {
 		if err != nil {
 			return "!L" + hx.ErrClass(err)
 		}
-		var sb strings.Builder
-		sb.WriteString("[")
-		n := l.Len()
-		for i := 0; i < n; i++ {
-			sb.WriteString(walkElem(root, l, i))
-			sb.WriteString(",")
-		}
-		sb.WriteString("]")
-		return sb.String()
+		return WalkList(root, l)
 	case spec.TypeMessage, spec.TypeBigMessage:
 		m, err := v.MessageErr()
 		if err != nil {
 			return "!M" + hx.ErrClass(err)
 		}
-		var sb strings.Builder
-		sb.WriteString("{")
-		n := m.Fields()
-		sorted := tagsSorted(m)
-		for i := 0; i < n; i++ {
-			sb.WriteString(walkField(root, m, i, sorted))
-			sb.WriteString(",")
-		}
-		sb.WriteString("}")
-		if sorted {
-			// tags the message does not have must read as absent in every table form, also in an
-			// empty table (by-tag lookup = the binary search over the raw table)
-			for _, t := range []int{0, 1, 255, 256, 65535} {
-				sb.WriteString(ghostProbe(m, t))
-			}
-		}
-		return sb.String()
+		return WalkMessage(root, m)
 	}
 	return "?" + strconv.Itoa(int(t))
+}
+
+// WalkList walks an already opened list (so that what is read is the list object itself, with the
+// table it holds, not a re-opened copy of its bytes).
+func WalkList(root []byte, l spec.List) (out string) {
+	defer func() {
+		if e := recover(); e != nil {
+			out = "PANIC"
+		}
+	}()
+	var sb strings.Builder
+	sb.WriteString("[")
+	n := l.Len()
+	for i := 0; i < n; i++ {
+		sb.WriteString(walkElem(root, l, i))
+		sb.WriteString(",")
+	}
+	sb.WriteString("]")
+	return sb.String()
+}
+
+// WalkMessage walks an already opened message.
+func WalkMessage(root []byte, m spec.Message) (out string) {
+	defer func() {
+		if e := recover(); e != nil {
+			out = "PANIC"
+		}
+	}()
+	var sb strings.Builder
+	sb.WriteString("{")
+	n := m.Fields()
+	sorted := tagsSorted(m)
+	for i := 0; i < n; i++ {
+		sb.WriteString(walkField(root, m, i, sorted))
+		sb.WriteString(",")
+	}
+	sb.WriteString("}")
+	if sorted {
+		// tags the message does not have must read as absent in every table form, also in an
+		// empty table (by-tag lookup = the binary search over the raw table)
+		for _, t := range []int{0, 1, 255, 256, 65535} {
+			sb.WriteString(ghostProbe(m, t))
+		}
+	}
+	return sb.String()
 }
 
 func walkElem(root []byte, l spec.List, i int) (out string) {
